@@ -32,7 +32,7 @@ ASSUMPTIONS = [
     "mesh_size > 0 and search_mesh_size/mesh_size exactly representable (both are powers of poll_mesh_multiplier = 2)",
     "default-is-coordinate uses the default options poll_mesh_multiplier 2, search_grid_multiplier 2, search_grid_number 10, "
     "max_poll_grid_number 0, search_size_locked (mesh exponent k <= 0: C13)",
-    "stobads / force_poll_mesh / periodic variables (non-default paths) are not covered",
+    "stobads / periodic variables (non-default paths) are not covered; force_poll_mesh=True is covered at run level only",
 ]
 
 KEYS = dict(shape="poll-dirs-shape", pairing="poll-dirs-pairing", integer="poll-dirs-integer", bound="poll-dirs-bound",
